@@ -89,12 +89,21 @@ func (f *fixture) tornReader(c *ctl, slot int, r *hx.Rng, minH uint32) {
 		h := minH - 3 + uint32(r.Intn(int(tip-minH)+5))
 		switch r.Intn(5) {
 		case 0:
+			s0 := f.hist.seq.Load()
 			b, err := da.GetBlockByHeight(h)
+			s1 := f.hist.seq.Load()
 			if err != nil {
 				if !notFound("GetBlockByHeight", err, h) {
 					return
 				}
+				if !f.hist.atHeightCurrent(h, s0, s1, "") {
+					c.fail("torn-read: GetBlockByHeight(%d): not found although a block was at that height in every chain state between writer operations %d and %d", h, s0, s1+1)
+					return
+				}
 			} else if !exact("GetBlockByHeight", b, h, true) {
+				return
+			} else if !f.hist.atHeightCurrent(h, s0, s1, string(b.Header.ID)) {
+				c.fail("stale-read: GetBlockByHeight(%d) returned a block that was not at that height in any chain state between writer operations %d and %d", h, s0, s1+1)
 				return
 			}
 		case 1:
@@ -135,16 +144,21 @@ func (f *fixture) tornReader(c *ctl, slot int, r *hx.Rng, minH uint32) {
 				}
 			}
 		case 3:
-			if !exact("Chain.LastBlock", f.chain.LastBlock(), 0, false) {
+			s0 := f.hist.seq.Load()
+			b := f.chain.LastBlock()
+			f.tipInBracket(c, "Chain.LastBlock", b, s0)
+			if c.stopped() || !exact("Chain.LastBlock", b, 0, false) {
 				return
 			}
 		case 4:
+			s0 := f.hist.seq.Load()
 			b, err := da.GetLastBlock()
 			if err != nil {
 				c.fail("nil-tip: GetLastBlock: %v", err)
 				return
 			}
-			if !exact("GetLastBlock", b, 0, false) {
+			f.tipInBracket(c, "GetLastBlock", b, s0)
+			if c.stopped() || !exact("GetLastBlock", b, 0, false) {
 				return
 			}
 		}
